@@ -24,3 +24,22 @@ Theorem C20_nesting_cap :
     exists st', skip_token cfg rf cf lt F st = Ok st' /\ i_pos st' = i_posMax st + 1.
 Proof. exact skip_token_cap. Qed.
 Print Assumptions C20_nesting_cap.
+
+(* ---- the block line loop runs at most once per line ------------------------------------- *)
+From MD Require Import Model.StateBlock Model.Block Lemmas.MapWhole.
+
+(* ParserBlock.tokenize's while loop, modelled on explicit fuel: whenever it returns a state at all,
+   it returns the same state for EVERY fuel above the number of lines left (el - line) - because
+   every pass over the rule chain moves the cursor forward by at least one line.  The loop body
+   therefore runs at most el - line + 1 times, for every source and configuration with the
+   paragraph rule: the number of rule-chain passes is linear in the number of lines (what is
+   NOT covered: the cost of one pass, e.g. the terminator scans of the known findings). *)
+Theorem C20_block_loop_once_per_line :
+  forall cfg rf cf rec, rec_c rec -> silent_terms cfg -> mem_str nm_paragraph (c_rules cfg) = true ->
+  forall f1 f2 st line el hel st',
+    tok_loop cfg rf cf f1 rec st line el hel = Ok st' ->
+    0 <= line -> line <= b_lineMax st -> el <= b_lineMax st -> TI st ->
+    (Z.to_nat (el - line) < f2)%nat ->
+    tok_loop cfg rf cf f2 rec st line el hel = Ok st'.
+Proof. exact tok_loop_fuel. Qed.
+Print Assumptions C20_block_loop_once_per_line.
